@@ -389,4 +389,95 @@ theorem transcode_identity_on_common {S : Type}
 that are JSON items) round-trips through the JSON family -/
 example : (⟨fun s => s, fun t => some t, fun s => s⟩ : ItemCodec Str).RoundTrips := fun _ => rfl
 
+/-! ## Pins: the constants of the anchored code that the hand-written model (and the oracle) mirror
+
+`TablesC20.lean` is regenerated on every run from the live code: the string/number constants of
+`commands.convert`, `_parse_format_name`, `_get_converter` (code objects; docstrings and log/exception
+message texts left out), the exception names of `convert` / `_iter_convert` / `_get_codec`, the names
+used by the readers `_read` / `_read_lines` / `_read_file` and by `_iter_convert`, the default arguments
+of `commands.convert`, `_get_converter` probed from outside with stand-in codecs, the
+representation and the pickle-API functions of every module of `delphin.codecs`, their
+HEADER/JOINER/FOOTER, and the argument defaults and constants of `delphin/cli/convert.py`.
+
+Mirrored by:
+* `c20ParseNameConsts`, `c20ParseNameNames` — `parseFormatName` (`lowerAscii`, `endsWith … linesSuffix`,
+  `take (length - 6)`, `filter (· != '-')`) and the oracle's `norm_name`;
+* `c20ConvertConsts` — `effFrame` (`''`/`'\n'`/`''` for `-lines`; `+ '\n'`, `strip() + '\n\n'`, `'\n' +`
+  with an indent), `frameOf` (defaults `''`, `' '`, `''` of `getattr(…, 'HEADER'/'JOINER'/'FOOTER', …)`),
+  `plan` (`projection` count `1`);
+* `c20ConvertDefaults`, `c20CliDefaults`, `c20CliConsts` — the driver's `indent` flag is
+  `indent is not None` (API default `None`, command line default `True`, `no|none` ↦ `None`), the harness's
+  `select`, `properties`, `lnk`, `predicate_modifiers` arguments;
+* `c20ConvertCaught`, `c20IterConvertCaught`, `c20GetCodecCaught` — `Outcome.encFail`
+  (PyDelphinException, KeyError, IndexError in `encode`), `Outcome.convFail` (PyDelphinException in the
+  converter), `getCodec` (KeyError ↦ CommandError);
+* `c20GetConverterConsts`, `c20ConverterProbe` — `getConverter`, `repMrs`/`repDmrs`/`repEds` and the
+  oracle's `naive_converter` (`c20_converter_probe_agrees` below ties the probe to the model);
+* `c20ReadNames`, `c20ReadLinesNames`, `c20IterConvertNames` — the readers are not modelled beyond "they
+  deliver the item list"; the model's `convert` takes one outcome per item the reader delivers, in order
+  (`load` for files and streams, `tsql.select` + `loads` + `next(iter(…))` per row for a profile,
+  `decode` per line), so any other name appearing there (a cache, a filter, a sort) must be looked at;
+* `c20CodecCaps`, `c20FramePins` — `familyOf` (`jsonNames`, `xmlNames`, `angleNames`, export-only = no
+  `load`), `Codec.canLoad`/`canEncode`, and the frames consumed by `frames_ok`.
+
+A change to any of them makes this theorem stop checking; the check then reports a broken proof
+obligation and searches for a failing input. -/
+theorem c20_pins :
+    c20ParseNameConsts = ["False", "-lines", "True", "-6", "-", ""]
+    ∧ c20ParseNameNames = ["lower", "endswith", "replace"]
+    ∧ c20ConvertConsts = ["select ", "projection", "1", "ignore", "indexedmrs", "semi", "indent", "eds",
+        "show_status", "properties", "lnk", "", "\n", "HEADER", "JOINER", " ", "FOOTER", "\n\n"]
+    ∧ c20ConvertDefaults = ["select='result.mrs'", "properties=True", "lnk=True", "color=False", "indent=None",
+        "show_status=False", "predicate_modifiers=False", "semi=None"]
+    ∧ c20ConvertCaught = ["CommandError", "PyDelphinException", "KeyError", "IndexError"]
+    ∧ c20IterConvertCaught = ["PyDelphinException"]
+    ∧ c20GetCodecCaught = ["KeyError", "CommandError"]
+    ∧ c20GetConverterConsts = ["representation", "mrs|dmrs", "0", "from_mrs", "representative_priority",
+        "dmrs|mrs", "from_dmrs", "mrs|eds", "predicate_modifiers"]
+    ∧ c20ReadNames = ["hasattr", "list", "load", "Path", "expanduser", "is_dir", "tsdb", "Database", "tsql",
+        "select", "next", "iter", "loads", "read", "0"]
+    ∧ c20ReadLinesNames = ["hasattr", "_read_file", "Path", "expanduser", "open", "decode"]
+    ∧ c20IterConvertNames = ["logger", "info", "enumerate", "debug", "PyDelphinException", "error"]
+    ∧ c20CodecCaps = ["ace:mrs:load,loads,decode",
+        "dmrsjson:dmrs:load,loads,decode,dump,dumps,encode",
+        "dmrspenman:dmrs:load,loads,decode,dump,dumps,encode",
+        "dmrstikz:dmrs:dump,dumps,encode",
+        "dmrx:dmrs:load,loads,decode,dump,dumps,encode",
+        "eds:eds:load,loads,decode,dump,dumps,encode",
+        "edsjson:eds:load,loads,decode,dump,dumps,encode",
+        "edspenman:eds:load,loads,decode,dump,dumps,encode",
+        "indexedmrs:mrs:load,loads,decode,dump,dumps,encode",
+        "mrsjson:mrs:load,loads,decode,dump,dumps,encode",
+        "mrsprolog:mrs:dump,dumps,encode",
+        "mrx:mrs:load,loads,decode,dump,dumps,encode",
+        "simpledmrs:dmrs:load,loads,decode,dump,dumps,encode",
+        "simplemrs:mrs:load,loads,decode,dump,dumps,encode"]
+    ∧ c20FramePins = ["ace:<undefined>:<undefined>:<undefined>", "dmrsjson:[:,:]",
+        "dmrspenman:<undefined>:<undefined>:<undefined>", "dmrstikz:<871 chars>:\n:\n\\end{document}\n",
+        "dmrx:<dmrs-list>::</dmrs-list>", "eds:<undefined>:<undefined>:<undefined>", "edsjson:[:,:]",
+        "edspenman:<undefined>:<undefined>:<undefined>", "indexedmrs:<undefined>:<undefined>:<undefined>",
+        "mrsjson:[:,:]", "mrsprolog:<undefined>:<undefined>:<undefined>", "mrx:<mrs-list>::</mrs-list>",
+        "simpledmrs:<undefined>:<undefined>:<undefined>", "simplemrs:<undefined>:<undefined>:<undefined>"]
+    ∧ c20CliDefaults = ["PATH=None", "color='auto'", "from='simplemrs'", "indent=True", "list=False",
+        "no_lnk=False", "no_properties=False", "predicate_modifiers=False", "select='result.mrs'", "semi=None",
+        "show_status=False", "to='simplemrs'"]
+    ∧ c20CliConsts = ["0", "always", "auto", "True", "no|none", "from",
+        "properties|lnk|color|indent|select|show_status|predicate_modifiers|semi"] := by
+  refine ⟨?_, ?_, ?_, ?_, ?_, ?_, ?_, ?_, ?_, ?_, ?_, ?_, ?_, ?_, ?_⟩ <;> rfl
+
+def convCode : Except Err Conv → Nat
+  | .ok .ident => 0
+  | .ok _ => 1
+  | .error _ => 2
+
+/-- `_get_converter`, probed from outside on all pairs over {mrs, dmrs, eds, MRS, Dmrs, other}, agrees
+with the model's `getConverter` on the lower-cased representation names: identity / a converter /
+CommandError for exactly the same pairs. -/
+theorem c20_converter_probe_agrees :
+    ∀ p ∈ c20ConverterProbe,
+      convCode (getConverter (p.1.map lowerAscii) (p.2.1.map lowerAscii)) = p.2.2 := by decide
+
+/-- the probe covers all 36 pairs -/
+theorem c20_converter_probe_size : c20ConverterProbe.length = 36 := by decide
+
 end Verif.C20
